@@ -151,13 +151,20 @@ pub fn c10(cfg: &J) {
     };
     let agg: KeyedAggregator<Call, DownSink> = KeyedAggregator::new(down);
     let sink = WorkerSink::new(agg, Duration::from_secs(1));
+    // Every harness-level operation (send, flush request) of every thread first touches one
+    // shared scheduler-visible marker: the operations become mutually dependent steps, so all
+    // their orders are explored even where the code under test synchronises through state the
+    // scheduler cannot see (a plain std atomic added by a change under test): what a thread
+    // does invisibly is glued to its marker touch.
+    let ops = LArc::new(Shadow::new());
     let threads: Vec<_> = producers
         .iter()
         .cloned()
         .map(|items| {
-            let s = sink.clone();
+            let (s, ops) = (sink.clone(), ops.clone());
             thread::spawn(move || {
                 for (k, w) in items {
+                    ops.touch();
                     s.send(call(&k, w));
                 }
             })
@@ -166,22 +173,26 @@ pub fn c10(cfg: &J) {
     // other threads that only request a flush and wait for it (two waiters on one worker)
     let flushers: Vec<_> = (0..cfg["flushers"].as_u64().unwrap_or(0))
         .map(|_| {
-            let s = sink.clone();
+            let (s, ops) = (sink.clone(), ops.clone());
             thread::spawn(move || {
                 let dummy: crate::rec::Log = Arc::new(Mutex::new(Vec::new()));
+                ops.touch();
                 let ((), _) = wait_with_snapshot(s.flush(), &dummy);
             })
         })
         .collect();
     let mut sent_before_flush: Vec<(String, u64)> = Vec::new();
     for (k, w) in &main_sends {
+        ops.touch();
         sink.send(call(k, *w));
         sent_before_flush.push((k.clone(), *w));
     }
     if flush {
         // a completed flush has seen everything this thread sent before it
         let dummy: crate::rec::Log = Arc::new(Mutex::new(Vec::new()));
+        ops.touch();
         let ((), _) = wait_with_snapshot(sink.flush(), &dummy);
+        ops.touch();
         let at_flush: Vec<AEv> = log.lock().unwrap().clone();
         let mut by_key: BTreeMap<String, (u64, u64)> = BTreeMap::new();
         for e in &at_flush {
